@@ -562,7 +562,7 @@ def run(tier, replay=None):
             elif k == "FOOTER":
                 fixes.append({"at": a, "from": a + 4, "to": a + 10, "algo": "crc32"})
         base = dict(op="decode", base="b_" + name, dec=dec, keep_out=True, out_limit=1 << 26, keep_input=True)
-        if mode == "flips":
+        if mode == "flips" or (not quick and len(data) <= 4096):
             for bit in range(len(data) * 8):
                 bjobs.append(dict(base, id=f"{name}/flip{bit}", mutn={"flip": bit}))
                 bmeta.append((name, fmt, data, content, members, "bitflip"))
@@ -571,7 +571,7 @@ def run(tier, replay=None):
                     if any(f["from"] * 8 <= bit < f["to"] * 8 for f in fixes):
                         bjobs.append(dict(base, id=f"{name}/flipfix{bit}", mutn={"flip": bit, "fix": fixes}))
                         bmeta.append((name, fmt, data, content, members, "bitflip+crcfix"))
-        else:
+        if mode != "flips":
             for i in range(n_seeded):
                 sd = rnd.getrandbits(40)
                 m = {"seeded": {"seed": sd, "n": 1 + i % 4}}
